@@ -276,7 +276,12 @@ def to_trace(job, r):
     ev = [{"err": r["error"]["type"], "dim": 0, "n": 0, "ranks": []}]
   else:
     ev = [{"err": "none", "dim": g["dim"], "n": len(g["names"]), "ranks": g["ranks"]} for g in r["groups"]]
-  return {"cfg": {"base": job["base"]}, "events": ev}
+  pipe = bool(job.get("pipeline"))
+  for e, g in zip(ev, r["groups"] if not r["error"] else []):
+    e["used"] = g.get("used", []) if pipe else []
+  for e in ev:
+    e.setdefault("used", [])
+  return {"cfg": {"base": job["base"], "pipeline": pipe}, "events": ev}
 
 
 def job_class(job, r):
@@ -312,6 +317,46 @@ def validate(ck, jobs, res, label):
       what += f"; dim {g['dim']} scores {g['scores']} -> ranks {g['ranks']} (budget {len(g['names']) * j['base']})"
     ck.violation(f"realloc|float_scores|{cls}|{v['verdict']}", what, {"job": j, "result": r, "verdict": v})
   return traces, verdicts, nacc
+
+
+TREES = [[[6, 5], [6, 4], [5, 4], [6, 6]], [[8, 3], [8, 8], [3, 8], [4, 4], [8, 4]], [[5, 5], [5, 5], [7, 5]],
+         [[9, 2], [2, 9], [9, 9]]]
+
+
+def pipeline(ck, quick):
+  """Real Sketchy state -> create_redist_dict -> Sketchy(memory_alloc): see harness/workers/realloc_consume.py."""
+  rs = np.random.RandomState(ck.seed + 1717)
+  rules = ["sketch_trace", "tail_rho", "sketch_intrinsic_rank", "ggt_trace", "ggt_intrinsic_rank"]
+  jobs = []
+  for i in range(8 if quick else 48):
+    tree = TREES[i % len(TREES)]
+    jobs.append({"shapes": tree, "base": [2, 1, 3][i % 3], "T": 4, "T2": 3, "seed": int(rs.randint(1 << 30)),
+                 "rule": rules[i % len(rules)], "avg": bool((i // 2) % 2), "decay": [1.0, 0.75][(i // 3) % 2],
+                 "scales": [float(10.0 ** rs.uniform(-2, 2)) for _ in tree], "pipeline": True,
+                 "kind": "pipeline", "layers": tree, "scores": {}})
+  res = core.run_workers("harness.workers.realloc_consume", jobs, work=ck.work, chunk=1)
+  ok_jobs, ok_res = [], []
+  for j, r in zip(jobs, res):
+    for k, v in r["worst"].items():
+      ck.calib(f"pipeline.{k}", v, {"twin_sketch": 1e-4, "twin_root": 1e-3, "update_direction": 1e-3}[k])
+    if r["error"]:
+      ck.violation(f"realloc|pipeline|{r['error']['where'].replace(' ', '_')}|code_raised_{r['error']['type']}",
+                   f"pipeline {j['shapes']} base {j['base']} rule {j['rule']} avg {j['avg']}: {r['error']['where']} "
+                   f"raised {r['error']['type']}: {r['error']['msg']}", {"job": j, "err": r["error"]})
+      continue
+    if r["mismatches"]:
+      m = r["mismatches"][0]
+      ck.violation(f"realloc|pipeline|{m['clause']}",
+                   f"pipeline {j['shapes']} base {j['base']} rule {j['rule']} avg {j['avg']}: {m}",
+                   {"job": j, "mismatches": r["mismatches"][:10], "groups": r["groups"]})
+    ok_jobs.append(j); ok_res.append(r)
+  hetero = sum(1 for r in ok_res for g in r["groups"] if len(set(g["used"])) > 1)
+  ck.cov["pipeline_groups_with_unequal_ranks"] = hetero
+  if ok_res and hetero == 0 and not ck.violations:
+    raise core.MachineryError("vacuous pipeline leg: every group was given uniform ranks")
+  if ok_jobs:
+    validate(ck, ok_jobs, ok_res, "pipeline (real Sketchy state -> reallocation -> Sketchy)")
+    ck.sample({"pipeline_groups": ok_res[0]["groups"], "pipeline_job": {k: ok_jobs[0][k] for k in ("shapes", "base", "rule", "avg")}})
 
 
 def run(ck):
@@ -364,15 +409,17 @@ def run(ck):
                                                   if not j.get("checkpoint") and job_class(j, r) == "absorbing")}
   if nacc == 0 and not ck.violations:
     raise core.MachineryError("vacuous V leg: no float-score call was accepted")
+  pipeline(ck, quick)
   # binding self-tests (V): a synthetic well-formed trace is accepted; each corrupted logged field is rejected
-  base = {"cfg": {"base": 2}, "events": [{"err": "none", "dim": 3, "n": 3, "ranks": [3, 2, 1]},
-                                         {"err": "none", "dim": 7, "n": 1, "ranks": [2]}]}
+  base = {"cfg": {"base": 2, "pipeline": True},
+          "events": [{"err": "none", "dim": 3, "n": 3, "ranks": [3, 2, 1], "used": [3, 2, 1]},
+                     {"err": "none", "dim": 7, "n": 1, "ranks": [2], "used": [2]}]}
   def mod(i, **kw):
     t = copy.deepcopy(base)
     t["events"][i].update(kw)
     return t
   synth = [copy.deepcopy(base), mod(0, ranks=[3, 2, 2]), mod(1, ranks=[0]), mod(0, ranks=[4, 1, 1]),
-           mod(0, ranks=[3, 2]), mod(1, err="AssertionError", dim=0, n=0, ranks=[])]
+           mod(0, ranks=[3, 2]), mod(1, err="AssertionError", dim=0, n=0, ranks=[]), mod(0, used=[3, 2, 2])]
   sub = core.Check(ck.pid, ck.level, ck.tier, ck.seed); sub.work = ck.work
   vs = sub.validate("Realloc_Trace", "Realloc_Trace", synth)
   ck.selftest("V: a well-formed synthetic trace is accepted", vs[0]["accepted"])
@@ -381,6 +428,8 @@ def run(ck):
   ck.selftest("V: a rank above the axis dimension is rejected", vs[3]["verdict"] == "rank_above_dim")
   ck.selftest("V: an axis missing from its group is rejected", vs[4]["verdict"] == "group_size_mismatch")
   ck.selftest("V: an assertion failure of the code is rejected", vs[5]["verdict"] == "code_assertion_failed")
+  ck.selftest("V: an axis whose Sketchy state holds another rank than allocated is rejected",
+              vs[6]["verdict"] == "allocation_not_honoured_by_sketchy")
   ck.assume("scores in the replay leg are integers 0..5 (times a positive float constant): the rational "
             "model's tie rule covers float32 rounding only for such proportional inputs; arbitrary float "
             "scores are covered by the trace leg, which checks the budget, not the exact allocation")
